@@ -4,6 +4,7 @@ import (
 	"fmt"
 	"go/ast"
 	"go/token"
+	"path/filepath"
 	"regexp"
 	"sort"
 	"strings"
@@ -468,6 +469,57 @@ func pdSseSendChecksInitialized(p *pkgSrc) bool {
 	return strings.Contains(p.text(fd.Body), ".Initialized()")
 }
 
+type pdDeadlineFact struct{ file, fn, call, arg string }
+
+// pdDeadlineSites: every call of a `Set(Read|Write)?Deadline` method and every `(Read|Write|Idle|ReadHeader)Timeout` field set in a
+// composite literal or assignment, in the root package and the internal packages the streams are written through.
+func pdDeadlineSites(pkgs map[string]*pkgSrc) []pdDeadlineFact {
+	var out []pdDeadlineFact
+	var dirs []string
+	for d := range pkgs {
+		dirs = append(dirs, d)
+	}
+	sort.Strings(dirs)
+	isTimeoutField := func(n string) bool {
+		return n == "WriteTimeout" || n == "ReadTimeout" || n == "IdleTimeout" || n == "ReadHeaderTimeout"
+	}
+	for _, dir := range dirs {
+		p := pkgs[dir]
+		for _, fname := range p.sortedFiles() {
+			for _, d := range p.files[fname].Decls {
+				fd, ok := d.(*ast.FuncDecl)
+				if !ok || fd.Body == nil {
+					continue
+				}
+				ast.Inspect(fd.Body, func(n ast.Node) bool {
+					switch x := n.(type) {
+					case *ast.CallExpr:
+						if s, ok := x.Fun.(*ast.SelectorExpr); ok && strings.HasPrefix(s.Sel.Name, "Set") && strings.HasSuffix(s.Sel.Name, "Deadline") {
+							arg := ""
+							if len(x.Args) > 0 {
+								arg = pdSquash(p.text(x.Args[0]))
+							}
+							out = append(out, pdDeadlineFact{dir + fname, fd.Name.Name, s.Sel.Name, arg})
+						}
+					case *ast.KeyValueExpr:
+						if id, ok := x.Key.(*ast.Ident); ok && isTimeoutField(id.Name) {
+							out = append(out, pdDeadlineFact{dir + fname, fd.Name.Name, id.Name, pdSquash(p.text(x.Value))})
+						}
+					case *ast.AssignStmt:
+						for i, l := range x.Lhs {
+							if s, ok := l.(*ast.SelectorExpr); ok && isTimeoutField(s.Sel.Name) && i < len(x.Rhs) {
+								out = append(out, pdDeadlineFact{dir + fname, fd.Name.Name, s.Sel.Name, pdSquash(p.text(x.Rhs[i]))})
+							}
+						}
+					}
+					return true
+				})
+			}
+		}
+	}
+	return out
+}
+
 func pdTextList(ss []string) string {
 	var parts []string
 	for _, s := range ss {
@@ -514,6 +566,19 @@ func genPending(root *pkgSrc) {
 	fmt.Fprintf(&b, "/-- `processEventData`: how the two sides of the id comparison are rendered. -/\ndef pdPostSseMatcher : List Nat × List Nat := (%s, %s)\n", leanText(l), leanText(r))
 	fmt.Fprintf(&b, "/-- some library code calls a session's `Initialize()`. -/\ndef pdSessionInitializeCalled : Bool := %s\n", leanBool(pdInitializeCalled(root)))
 	fmt.Fprintf(&b, "/-- the legacy SSE server's `sendNotificationToSession` refuses sessions that are not `Initialized()`. -/\ndef pdSseSendChecksInitialized : Bool := %s\n", leanBool(pdSseSendChecksInitialized(root)))
+	b.WriteString("/-- a deadline or connection timeout set by library code (root package, internal/sseutil, internal/httputil):\n" +
+		"    a `Set…Deadline` call or a `…Timeout` field of an http.Server. -/\nstructure PdDeadline where\n  file : List Nat\n  func : List Nat\n  call : List Nat\n  arg : List Nat\n  deriving Repr, DecidableEq\n")
+	b.WriteString("def pdDeadlineSites : List PdDeadline := [\n")
+	dls := pdDeadlineSites(map[string]*pkgSrc{"": root, "internal/sseutil/": loadDir(filepath.Join(*repo, "internal", "sseutil")),
+		"internal/httputil/": loadDir(filepath.Join(*repo, "internal", "httputil"))})
+	for i, d := range dls {
+		sep := ","
+		if i == len(dls)-1 {
+			sep = ""
+		}
+		fmt.Fprintf(&b, "  ⟨%s, %s, %s, %s⟩%s -- %s %s %s(%s)\n", leanText(d.file), leanText(d.fn), leanText(d.call), leanText(d.arg), sep, d.file, d.fn, d.call, d.arg)
+	}
+	b.WriteString("]\n")
 	b.WriteString("end Mcp.Gen\n")
 	writeIfChanged("PendingFacts.lean", b.String())
 }
